@@ -114,7 +114,7 @@ _INPLACE = {ast.BitOr: _op.ior, ast.BitAnd: _op.iand, ast.BitXor: _op.ixor, ast.
 
 
 class Folder:
-    def __init__(self, program: Program, budget=200000):
+    def __init__(self, program: Program, budget=20000000):
         self.p = program
         self._globals = {}      # (modname, name) -> value
         self._inprogress = set()
@@ -167,7 +167,31 @@ class Folder:
         finally:
             self._inprogress.discard(key)
         self._globals[key] = v
+        self._snapshot_object(v)
         return v
+
+    def _snapshot_object(self, v):
+        """Module-level objects with attributes (a private state object the module keeps): remember the state they are
+        imported with, so that every abstract execution path can start from it."""
+        if hasattr(v, 'attrs') and hasattr(v, 'cls') and isinstance(getattr(v, 'attrs'), dict):
+            snaps = self.__dict__.setdefault('_object_snapshots', {})
+            if id(v) not in snaps:
+                snaps[id(v)] = (v, dict(v.attrs))
+
+    def restore_global_objects(self):
+        for v, attrs in self.__dict__.get('_object_snapshots', {}).values():
+            if v.attrs != attrs or list(v.attrs) != list(attrs):
+                v.attrs.clear()
+                v.attrs.update(attrs)
+
+    def global_objects(self):
+        """(module name, global name, object) for the module-level objects seen so far."""
+        out = []
+        snaps = self.__dict__.get('_object_snapshots', {})
+        for (mn, gn), v in self._globals.items():
+            if id(v) in snaps:
+                out.append((mn, gn, v))
+        return out
 
     def _compute_global(self, m: Module, name: str):
         if name in m.assigns or name in m.functions or name in m.classes:
